@@ -41,10 +41,47 @@ def formula_set(tier):
     return out
 
 
+def unless_unit_cases():
+    """(unless text, expansion text): every unit spelling of [a,b] (as in C08) written identically on both sides"""
+    from . import c08
+    out = []
+    for (a, b) in ((0, 1), (1, 2), (1, 1), (0, 2)):
+        for du in ('s', 'ms'):
+            for text_b, sb, se in c08.spellings(a * 10 ** 9, b * 10 ** 9, du):
+                zero_b = c08.spellings(0, b * 10 ** 9, du)
+                # the always-half: [0, b] with the same suffixes
+                zb = [t for t, s1, s2 in zero_b if (s1, s2) == (sb, se)][0]
+                out.append((du, 'out = (x >= 0) unless%s (y <= 1)' % text_b,
+                            'out = (always%s (x >= 0)) or ((x >= 0) until%s (y <= 1))' % (zb, text_b)))
+    return out
+
+
 def shards(tier):
     fs = formula_set(tier)
     per = 15 if tier == 'quick' else 6
-    return [{'formulas': [F.to_json(f) for f in fs[i:i + per]]} for i in range(0, len(fs), per)]
+    out = [{'formulas': [F.to_json(f) for f in fs[i:i + per]]} for i in range(0, len(fs), per)]
+    n = len(unless_unit_cases())
+    for i in range(0, n, 25):
+        out.append({'unless': [i, min(n, i + 25)]})
+    return out
+
+
+def unless_outcome(text, du, w):
+    k, spec = impl.outcome(impl.build, 'dt_off', text, ['x', 'y'], unit=du)
+    if k != 'ok':
+        return (k,)
+    k, v = impl.outcome(impl.dt_evaluate, spec, w, [i * (1 if du == 's' else 1000) for i in range(len(w['x']))])
+    return (k, [p[1] for p in v] if k == 'ok' else None)
+
+
+def check_unless(case):
+    traces = [F.trace_dict(t, ['x', 'y']) for t in F.traces(3, F.V2, 2)]
+    for w in traces:
+        a = unless_outcome(case['text'], case['unit'], w)
+        b = unless_outcome(case['expansion'], case['unit'], w)
+        if a != b and not (a[0] == b[0] == 'ok' and refsem.same_list(a[1], b[1])):
+            return '`%s` gives %r but its documented expansion `%s` gives %r on %r' % (case['text'], a, case['expansion'], b, w)
+    return None
 
 
 def ltl_spec(text, vs):
@@ -108,6 +145,20 @@ def check_variant(f, vs, text, fe, canon_vals, traces):
 
 def run_shard(shard, tier, res):
     mod = sys.modules[__name__]
+    if 'unless' in shard:
+        for du, text, exp in unless_unit_cases()[shard['unless'][0]:shard['unless'][1]]:
+            case = {'unless_case': True, 'unit': du, 'text': text, 'expansion': exp}
+            res.evaluations += 1
+            msg = check_unless(case)
+            if msg:
+                res.violation(mod, case, msg)
+                res.outcomes['unless differs from its expansion'] += 1
+            else:
+                res.outcomes['same monitor'] += 1
+                res.nontrivial += 1
+            res.digest(text, du, msg)
+        res.sample({'unless': text, 'expansion': exp}, 1)
+        return
     for fj in shard['formulas']:
         f = F.from_json(fj)
         vs = sorted(F.fvars(f))
@@ -146,6 +197,9 @@ def run_shard(shard, tier, res):
 
 
 def replay(case):
+    if case.get('unless_case'):
+        m = check_unless(case)
+        return [m] if m else []
     f = F.from_json(case['formula'])
     vs = case['vars']
     traces = [F.trace_dict(t, vs) for t in F.traces(3, F.V3 if len(vs) == 1 else F.V2, len(vs))]
